@@ -63,7 +63,15 @@ func c18Creates() map[string]map[string]interface{} {
 	kfOff := base()
 	kfOff["kafka_connect_param"] = map[string]interface{}{"address": "kafka:9092", "topic": "t", "enable_sasl": false,
 		"sasl": map[string]interface{}{"username": c18Canaries[2], "password": c18Canaries[3], "mechanisms": "PLAIN", "security_protocol": "SASL_SSL"}}
-	return map[string]map[string]interface{}{"milvus-token": tok, "milvus-userpass": up, "kafka-sasl": kf, "kafka-sasl-off": kfOff}
+	// credentials with characters that are written differently inside JSON text (quote, backslash, & < >): whatever
+	// masks on a serialized form has to cope with them (the detector looks for the alphanumeric core of each canary)
+	special := "\"q\\z&<>"
+	upS := base()
+	upS["milvus_connect_param"] = map[string]interface{}{"host": "milvus-b", "port": 19530, "username": "root", "password": c18Canaries[0] + special, "connect_timeout": 1, "channel_num": 2}
+	kfS := base()
+	kfS["kafka_connect_param"] = map[string]interface{}{"address": "kafka:9092", "topic": "t", "enable_sasl": true,
+		"sasl": map[string]interface{}{"username": c18Canaries[2] + special, "password": c18Canaries[3] + special, "mechanisms": "PLAIN", "security_protocol": "SASL_SSL"}}
+	return map[string]map[string]interface{}{"milvus-token": tok, "milvus-userpass": up, "kafka-sasl": kf, "kafka-sasl-off": kfOff, "milvus-userpass-special": upS, "kafka-sasl-special": kfS}
 }
 
 func c18Leak(where string, text string) string {
